@@ -55,6 +55,16 @@ func (c *AttrCache) ConfigureNegativeCaching(enable bool, ttl time.Duration) {
 	c.mu.Lock()
 	defer c.mu.Unlock()
 
+	if !enable {
+		// Negative entries exist only while negative caching is enabled:
+		// drop the ones stored so far so that they are no longer served.
+		for path, cached := range c.cache {
+			if cached.isNegative {
+				c.removeFromAccessLog(path)
+				delete(c.cache, path)
+			}
+		}
+	}
 	c.enableNegative = enable
 	if ttl > 0 {
 		c.negativeTTL = ttl
